@@ -305,7 +305,20 @@ class BufferedReader(BufferedIOBase):
         return mkbytes(out)
 
     def read1(self, size=-1):
-        raise Unsupported("BufferedReader.read1")
+        """At most one raw read (CPython: buffered data first, otherwise one direct raw read of up to size)."""
+        if self.closed:
+            raise ValueError("read of closed file")
+        if size is None or size < 0:
+            size = self.buffer_size
+        size = size.__index__()
+        if size == 0:
+            return mkbytes([])
+        if self._buf:
+            out = self._buf[:size]
+            del self._buf[:size]
+            return mkbytes(out)
+        got = self._raw_readinto(size)
+        return mkbytes(got or [])
 
     def readinto(self, b):
         data = self.read(len(b))
@@ -327,9 +340,139 @@ class BufferedReader(BufferedIOBase):
         raise Unsupported("BufferedReader.detach")
 
 
-class TextIOWrapper:
-    def __init__(self, *a, **k):
-        raise Unsupported("io.TextIOWrapper is implemented in C; text mode is outside the encoding")
+class TextIOWrapper(IOBase):
+    """Model of _io.TextIOWrapper for the use canopen makes of it: strict codec, default newline handling on a
+    POSIX host (no translation on write; universal newlines on read), optional line buffering, pending bytes
+    handed to the underlying buffered stream on flush/close.  Chunk-size effects (8192 bytes) are outside: a
+    transfer that would reach the chunk size raises Unsupported.  Validated against the real class by the
+    native witness replay of every sampled path."""
+    _CHUNK = 8192
+
+    def __init__(self, buffer, encoding=None, errors=None, newline=None, line_buffering=False,
+                 write_through=False):
+        if encoding is None:
+            raise Unsupported("TextIOWrapper with the locale encoding")
+        if newline is not None:
+            raise Unsupported("TextIOWrapper newline=%r" % (newline,))
+        self.buffer = buffer
+        self._encoding = encoding
+        self._errors = errors or "strict"
+        self._line_buffering = bool(line_buffering)
+        self._pending = []
+        self._chars = None      # decoded characters not yet handed out
+        self._eof = False
+        self._pendingcr = False
+        buffer.seekable(), buffer.readable(), buffer.writable()
+
+    encoding = property(lambda self: self._encoding)
+    line_buffering = property(lambda self: self._line_buffering)
+
+    @property
+    def closed(self):
+        return self.buffer.closed
+
+    def readable(self):
+        return self.buffer.readable()
+
+    def writable(self):
+        return self.buffer.writable()
+
+    def _writeflush(self):
+        if self._pending:
+            items, self._pending = self._pending, []
+            self.buffer.write(mkbytes(items))
+
+    def write(self, s):
+        if self.closed:
+            raise ValueError("I/O operation on closed file.")
+        from ..symstr import SymStr, _cps_of
+        if not isinstance(s, (str, SymStr)):
+            raise TypeError("write() argument must be str")
+        cps = _cps_of(s)
+        need = False
+        if self._line_buffering:
+            for c in cps:
+                if (c == 10) | (c == 13):
+                    need = True
+                    break
+        b = s.encode(self._encoding, self._errors)
+        items = _items_of(b)
+        if len(self._pending) + len(items) >= self._CHUNK:
+            raise Unsupported("TextIOWrapper chunk boundary")
+        self._pending.extend(items)
+        if need:
+            self._writeflush()
+            self.buffer.flush()
+        return len(cps)
+
+    def flush(self):
+        if self.closed:
+            raise ValueError("I/O operation on closed file.")
+        self._writeflush()
+        self.buffer.flush()
+
+    def close(self):
+        if self.buffer.closed:
+            return
+        try:
+            self.flush()
+        finally:
+            self.buffer.close()
+
+    def _translate(self, cps, final):
+        out = []
+        for c in cps:
+            if self._pendingcr:
+                self._pendingcr = False
+                if c == 10:
+                    out.append(10)
+                    continue
+                out.append(10)
+            if c == 13:
+                self._pendingcr = True
+            else:
+                out.append(c)
+        if final and self._pendingcr:
+            self._pendingcr = False
+            out.append(10)
+        return out
+
+    def read(self, size=-1):
+        if self.closed:
+            raise ValueError("I/O operation on closed file.")
+        from ..symstr import decode, mkstr, _cps_of
+        if size is None:
+            size = -1
+        if self._chars is None:
+            self._chars = []
+        if size < 0:
+            data = self.buffer.read()
+            cps = _cps_of(decode(_items_of(data), self._encoding, self._errors))
+            out = self._chars + self._translate(cps, True)
+            self._chars = []
+            self._eof = True
+            return mkstr(out)
+        while len(self._chars) < size and not self._eof:
+            data = self.buffer.read1(self._CHUNK)
+            items = _items_of(data)
+            if not items:
+                self._eof = True
+                self._chars.extend(self._translate([], True))
+                break
+            if self._encoding.replace("-", "_").lower() not in ("ascii", "us_ascii", "latin_1", "latin1"):
+                raise Unsupported("incremental decoding of a multi-byte codec")
+            self._chars.extend(self._translate(_cps_of(decode(items, self._encoding, self._errors)), False))
+        out, self._chars = self._chars[:size], self._chars[size:]
+        return mkstr(out)
+
+    def readline(self, *a):
+        raise Unsupported("TextIOWrapper.readline")
+
+    def __iter__(self):
+        raise Unsupported("TextIOWrapper iteration")
+
+    def detach(self):
+        raise Unsupported("TextIOWrapper.detach")
 
 
 def open(*a, **k):
